@@ -381,6 +381,21 @@ pub fn generate(g: &mut Gen, thorough: bool) {
             g.push(super::op_line("default", &res, &[], def, "both", "F", &data), "witness-modifier-only-steps", true);
         }
     }
+    // a macro that invokes itself from several steps of its body: refused as fast as one that does so once (the first
+    // step that cannot be instantiated ends the instantiation of the pipeline)
+    {
+        let res = vec![
+            ("r:two".to_string(), "r:two | r:two".to_string()),
+            ("r:four".to_string(), "addone | r:four | r:four | r:four inv | r:four".to_string()),
+            ("r:p".to_string(), "r:q | r:q".to_string()),
+            ("r:q".to_string(), "r:p | addone | r:p".to_string()),
+        ];
+        for def in ["r:two", "r:two inv", "addone | r:two", "r:four", "r:p", "r:q | r:p", "r:two | r:four"] {
+            let data = super::probe_data(1);
+            g.push(super::c09::case("default", &res, def, &data), "oracle-recursion-from-several-steps", true);
+            g.push(super::op_line("default", &res, &[], def, "both", "F", &data), "witness-recursion-from-several-steps", true);
+        }
+    }
     // the built-in name `pipeline` is a definition that refers to itself: as the body of a macro, as a step of one
     {
         let res = vec![
